@@ -31,7 +31,7 @@ def _engines(ctx: Ctx):
     """(deme class, run_metaepoch, loop, step node, consumer calls, result names)."""
     out = []
     for ci in ctx.concrete_demes():
-        f = ctx.prog.lookup_method(ci, "run_metaepoch")
+        f = __import__("hmslint.rules.common", fromlist=["step_method"]).step_method(ctx, ci)
         cfg = ctx.cfg(f)
         eval_nodes = [n for n in cfg.nodes if node_has_effect(ctx, f, n, "EVAL")]
         in_loop = [(n, cfg.loop_of(n)) for n in eval_nodes if cfg.loop_of(n) is not None]
@@ -119,6 +119,11 @@ def analyse_engine(ctx: Ctx, ci, f, cfg, in_loop):
             if not (isinstance(c, ast.Call) and isinstance(c.func, ast.Attribute)):
                 continue
             recv = c.func.value
+            if isinstance(recv, ast.Name) and recv.id == selfn and c.args and c.func.attr != "log":
+                # a hook of the deme itself that breeds the next generation from its argument (`self._next_generation(parents)`)
+                if n in [x for x, _ in in_loop] and any(cs.node is c and any(ctx.eff.has(t, "EVAL") for t in cs.targets) for cs in ctx.res.callsites(f)):
+                    consumers.append((n, c, [c.args[0]]))
+                continue
             if not (isinstance(recv, ast.Attribute) and isinstance(recv.value, ast.Name) and recv.value.id == selfn):
                 continue
             rt = ctx.res.type_of(recv, f)
